@@ -173,6 +173,20 @@ void corruptions(Ctx& ctx, int seedIdx)
 	if (seedIdx == 2) cfg[4] = 1;                       // no animations: the header totals are the last bytes of the file
 	ref::RPrt r = prtc::makePrt(cfg);
 	if (seedIdx == 3) r = ref::RPrt();                  // nothing at all
+	if (seedIdx == 4) {                                 // two images, the second an empty 0 x 0 placeholder: its fields are bound by the same rules
+		cfg[1] = 2; r = prtc::makePrt(cfg);
+		if (r.images.size() < 2) { ctx.violation("harness/prt-seed-4", "", "expected two images"); return; }
+		r.images[1].width = 0; r.images[1].height = 0; r.images[1].scanLine = 0;
+		ArtFile ok; auto o0 = mc::guarded([&] { ok = prtc::readArt(ref::encodePrt(r)); });
+		if (o0.cls != 'R') { ctx.violation("C10/corruption/valid-file-with-empty-image-rejected", "seed prt4", o0.what); return; }
+		for (int which = 0; which < 2; ++which) {
+			ArtFile badArt = ok;
+			if (which == 0) badArt.imageMetas[1].paletteIndex = uint16_t(badArt.palettes.size()); else badArt.imageMetas[1].scanLineByteWidth = 4;
+			auto w = mc::guarded([&] { prtc::writeArt(badArt); });
+			ctx.transition(); ctx.count("corruption/empty-image-writer-refusals");
+			if (w.cls == 'R') ctx.violation("C10/writer/accepted-rule-violation-on-an-empty-image", which == 0 ? "0 x 0 image naming a palette that does not exist" : "0 x 0 image with scan line width 4", "");
+		}
+	}
 	std::vector<ref::Field> f;
 	auto bytes = ref::encodePrt(r, &f);
 	std::vector<mc::FField> ff; for (auto& x : f) ff.push_back({ x.offset, x.width, x.name });
@@ -216,6 +230,7 @@ void runCase(std::size_t i, Ctx& ctx)
 	std::size_t k = i - nChunks();
 	if (k == 0) writerRefusals(ctx);
 	else if (k == 5) failingWrites(ctx);
+	else if (k == 6) corruptions(ctx, 4);
 	else corruptions(ctx, int(k - 1));
 }
 
@@ -226,7 +241,7 @@ int main(int argc, char** argv)
 	mc::CheckDef def;
 	def.id = "C10";
 	def.init = enumerate;
-	def.ncases = [](Ctx&) { return nChunks() + 6; };
+	def.ncases = [](Ctx&) { return nChunks() + 7; };
 	def.run = runCase;
 	def.caseTimeoutS = 300;
 	return mc::Main(argc, argv, def);
